@@ -37,17 +37,26 @@ func TopologicalSort[S ~[]V, Index comparable, V any](slice S, queryIndexHandler
 
 	var sorted = make([]V, 0, len(slice))
 	var visited = make(map[Index]bool)
+	var visiting = make(map[Index]bool) // nodes on the current visit stack
+	var circular bool
 
 	var visit func(node *topologicalSortNode[V])
 	visit = func(node *topologicalSortNode[V]) {
 		index := queryIndexHandler(node.value)
+		if visiting[index] {
+			// reached a node whose visit has not finished yet: the dependencies form a cycle
+			circular = true
+			return
+		}
 		if node == nil || visited[index] {
 			return
 		}
 		visited[index] = true
+		visiting[index] = true
 		for _, n := range node.dependsOn {
 			visit(n)
 		}
+		visiting[index] = false
 		sorted = append(sorted, node.value)
 	}
 
@@ -55,7 +64,7 @@ func TopologicalSort[S ~[]V, Index comparable, V any](slice S, queryIndexHandler
 		visit(node)
 	}
 
-	if len(sorted) != len(slice) {
+	if circular || len(sorted) != len(slice) {
 		return nil, ErrCircularDependencyDetected
 	}
 
